@@ -315,7 +315,7 @@ def honest_em(pad, n, mhash, pre):
     if pad == "pkcs1":
         t = (b"" if pre else SHA256_ID) + mhash
         return b"\x00\x01" + b"\xff" * (k - len(t) - 3) + b"\x00" + t
-    return b"\x00\xff" + b"\x00" * (k - len(mhash) - 2) + mhash
+    return b"\x00" * (k - len(mhash) - 1) + b"\xff" + mhash
 
 
 def crafted_ems(rng, pad, n, mhash, pre):
@@ -354,10 +354,16 @@ def crafted_ems(rng, pad, n, mhash, pre):
         else:
             out.append(("with-id", b"\x00\x01" + b"\xff" * (k - len(T) - 3 - len(SHA256_ID)) + b"\x00" + SHA256_ID + T))
     else:
-        out.append(("ff-low", b"\x00\xfe" + b"\x00" * (k - len(mhash) - 2) + mhash))
-        out.append(("lead1", b"\x01\xff" + b"\x00" * (k - len(mhash) - 2) + mhash))
-        out.append(("ff-later", b"\x00\x00\xff" + b"\x00" * (k - len(mhash) - 3) + mhash))
-        out.append(("junk-between", b"\x00\xff" + b"\x00" * (k - len(mhash) - 3) + b"\x01" + mhash))
+        z = b"\x00" * (k - len(mhash) - 1)
+        out.append(("fe", z + b"\xfe" + mhash))
+        out.append(("lead1", b"\x01" + z[1:] + b"\xff" + mhash))
+        out.append(("junk-before", z[:-1] + b"\x01\xff" + mhash))
+        out.append(("no-ff", z + b"\x00" + mhash))
+        out.append(("ff-twice", z[:-1] + b"\xff\xff" + mhash))
+        # FF earlier: the "message" is longer than a digest (the verifier copies it into a digest-sized buffer)
+        out.append(("ff-early-8", z[:-8] + b"\xff" + rng.bytes(8) + mhash))
+        out.append(("ff-early", b"\x00\xff" + rng.bytes(k - len(mhash) - 2) + mhash))
+        out.append(("short-digest", z + b"\x00\xff" + mhash[:-1]))
     return [(t, em) for t, em in out if len(em) == k or pad == "pkcs2"]
 
 
@@ -456,6 +462,8 @@ def gen_rsa(ctx, exe, pad, scale):
             # encoded messages signed with the real private exponent
             for tag, em in crafted_ems(rng, pad, n, mh, h):
                 v = int.from_bytes(em, "big")
+                if tag == "ff-early" and full > 1:
+                    continue            # faults the BASIC verifier (finding C05-13): once per run
                 if v < n:
                     V(m, pow(v, d, n).to_bytes(kl, "big"))
             # e = 1: the encoded message is its own signature (the verification equation holds)
@@ -1211,6 +1219,9 @@ def streams(ctx, scale=1):
             lines += gen_pairing(ctx, exe, cid, CVS[cid], scale, 2 if ctx.tier != "quick" or (ci + ctx.seed) % 2 == 0 else 1)
     res.append({"name": "pairing-base", "cfg": "base", "exe": exe, "lines": lines})
     res.append({"name": "rsa-pss", "cfg": "base", "exe": exe, "lines": ["cfg"] + gen_rsa(ctx, exe, "pkcs2", scale)})
+    for cfg, pad in (("rsa-pkcs1", "pkcs1"), ("rsa-basic", "basic")):
+        ex2 = _exe(ctx, cfg)
+        res.append({"name": cfg, "cfg": cfg, "exe": ex2, "lines": ["cfg"] + gen_rsa(ctx, ex2, pad, scale)})
     return res
 
 
@@ -1303,6 +1314,11 @@ def matches_finding(f, r):
             return len(sig) != kl and s < n and _accepted(r)
         if pred == "rsa_pss_top_bit":
             return pad == "pkcs2" and _accepted(r) and n > 1 and (pow(s, e, n) >> (n.bit_length() - 1)) & 1 == 1
+        if pred == "rsa_basic_position":
+            if pad != "basic" or s >= n or len(sig) != kl or not (_accepted(r) or r["got"].startswith("CRASH")):
+                return False
+            em = pow(s, e, n).to_bytes(kl, "big").lstrip(b"\x00")
+            return em[:1] == b"\xff" and len(em) != 33
         if pred == "rsa_pss_size":
             return pad == "pkcs2" and n.bit_length() % 8 == 1 and r["got"].startswith("v=0")
     if op == "rsa_sig" and pred == "rsa_prehash_len":
